@@ -345,7 +345,7 @@ def check(pid, tier, seed):
             known_lines.append(f"KNOWN-FINDING: property={pid} {k['what']} [{k['id']}] (not replayed in the {tier} tier)")
     searched = 0
     # 3. broken correspondence without an oracle failure: targeted search
-    if disagreements and not fails:
+    if (disagreements or proof['problems']) and not fails:
         for c in disagreements[:8]:
             nb = neighbours(c.req, seed)
             cs = execute(nb); searched += len(cs)
@@ -362,10 +362,7 @@ def check(pid, tier, seed):
                     fails += [d for d in cs if d.verdicts.get(oracle) == 'FAILS' and not d.bad and not is_known(d)]
                     if fails: break
                 if fails: break
-    # 4. proof layer problems
-    if proof['problems']:
-        path = write_replay(pid, seed, 'proof', {'property': pid, 'what': 'proof layer no longer checks', 'problems': proof['problems']})
-        violations.append((path, ' no-failing-input-found'))
+    # 4. verdict: one VIOLATION line per run; a concrete failing input wins over "no longer shown"
     if fails:
         c = fails[0]
         def still_fails(req):
@@ -373,19 +370,26 @@ def check(pid, tier, seed):
             return bool(cs) and cs[0].verdicts.get(oracle) == 'FAILS' and not cs[0].bad and not is_known(cs[0])
         small = shrink(c.req, still_fails) if cfg.get('shrink', True) else c.req
         sc = execute([small])[0]
-        path = write_replay(pid, seed, 0, {
+        body = {
             'property': pid, 'what': 'the implementation\'s answer violates the property oracle',
             'request': sc.req, 'impl_answer': sc.impl, 'model_answer': sc.model, 'oracle': sc.verdicts,
             'original_request': c.req, 'failing_cases_seen': len(fails),
-            'replay': f'./check {pid} --replay <this file>'})
+            'replay': f'./check {pid} --replay <this file>'}
+        if proof['problems']: body['proof_layer_problems'] = proof['problems']
+        if disagreements: body['model_disagreements'] = len(disagreements)
+        path = write_replay(pid, seed, 0, body)
         violations.append((path, ''))
-    elif disagreements:
-        c = disagreements[0]
-        path = write_replay(pid, seed, 'corr', {
-            'property': pid, 'what': 'correspondence model/implementation broken; no failing input found',
-            'stream': cfg.get('stream', oracle), 'theorems_no_longer_applicable': [t['name'] for t in proof['theorems']],
-            'first_diverging_request': c.req, 'impl_answer': c.impl, 'model_answer': c.model,
-            'diverging_cases': len(disagreements), 'searched_neighbours': searched})
+    elif proof['problems'] or disagreements:
+        body = {'property': pid, 'what': 'the property is no longer shown to hold; no failing input found', 'searched_cases': searched}
+        if proof['problems']:
+            body['proof_layer_problems'] = proof['problems']
+        if disagreements:
+            c = disagreements[0]
+            body.update({'correspondence': 'model/implementation diverge', 'stream': cfg.get('stream', oracle),
+                         'theorems_no_longer_applicable': [t['name'] for t in proof['theorems']],
+                         'first_diverging_request': c.req, 'impl_answer': c.impl, 'model_answer': c.model,
+                         'diverging_cases': len(disagreements)})
+        path = write_replay(pid, seed, 'proof' if proof['problems'] and not disagreements else 'corr', body)
         violations.append((path, ' no-failing-input-found'))
     wall = time.time() - t0
     samples = [{'request': c.req[:400], 'impl': c.impl[:300], 'model': c.model[:300], 'oracle': c.verdicts.get(oracle)} for c in relevant[:2] + relevant[len(relevant) // 2: len(relevant) // 2 + 2] + relevant[-1:]]
